@@ -1804,8 +1804,8 @@ func realCase(e *lp.Exec, c cfg) {
 		return n
 	}
 	waitFor := func(want int, d time.Duration) bool {
-		t0 := time.Now()
-		for time.Since(t0) < d {
+		// d of 1 ms sleeps, counted (a sleep oversleeps on a loaded machine: the bound stretches with the load)
+		for i := 0; i < int(d/time.Millisecond); i++ {
 			if total() >= want {
 				return true
 			}
@@ -1814,18 +1814,19 @@ func realCase(e *lp.Exec, c cfg) {
 		return total() >= want
 	}
 	idle := func() {
-		// no input pending: the readers must be idle. A spinning goroutine burns a whole core for as long as it is looked at,
-		// so the bound is relative to the time that REALLY elapsed (a sleep oversleeps on a loaded machine, and the process's
-		// background work grows with it): half a core in each of sixteen consecutive windows (≈ 1 s; what the previous case's engine still does
-		// while it shuts down calms down within that); one window below that acquits
-		for try := 0; try < 16; try++ {
+		// no input pending: the readers must be idle. Judged by what the engine DOES on its real descriptors — poller
+		// wake-ups (epoll_wait returning events) and read calls, counted by the shim — not by CPU time: an idle engine makes
+		// none, a spinning poller / read task makes thousands per second; the load of the machine only slows a spinner
+		// down. Spinning = more than 50 such calls in each of five consecutive 60 ms windows (CPU time is printed as a hint)
+		for try := 0; try < 5; try++ {
 			c0, w0 := cpuTime(), time.Now()
+			k0, r0 := vsys.RealActivity()
 			time.Sleep(60 * time.Millisecond)
-			used, el := cpuTime()-c0, time.Since(w0)
-			if used < el/2 {
+			k1, r1 := vsys.RealActivity()
+			if (k1-k0)+(r1-r0) <= 50 {
 				return
-			} else if try == 15 {
-				e.Oracle("c02-spin", "%s: %v CPU in a %v window with no input pending (sixteenth window in a row above half a core)", tag, used, el.Round(time.Millisecond))
+			} else if try == 4 {
+				e.Oracle("c02-spin", "%s: no input pending, yet %d poller wake-ups and %d read calls on real descriptors in a %v window (fifth window in a row; %v CPU)", tag, k1-k0, r1-r0, time.Since(w0).Round(time.Millisecond), cpuTime()-c0)
 			}
 		}
 	}
@@ -1925,8 +1926,7 @@ func realCase(e *lp.Exec, c cfg) {
 	case *net.UnixConn:
 		_ = t.CloseWrite()
 	}
-	t0 := time.Now()
-	for time.Since(t0) < 5*time.Second {
+	for i := 0; i < 5000; i++ { // counted 1 ms sleeps: stretches with the load
 		mu.Lock()
 		n := len(closed)
 		mu.Unlock()
@@ -1979,7 +1979,7 @@ func realCase(e *lp.Exec, c cfg) {
 		}
 		defer pc2.Close()
 		var sc *nbio.Conn
-		for t0 := time.Now(); time.Since(t0) < 3*time.Second && sc == nil; time.Sleep(time.Millisecond) {
+		for i := 0; i < 3000 && sc == nil; i, _ = i+1, func() bool { time.Sleep(time.Millisecond); return true }() {
 			mu.Lock()
 			if len(opened) > n0 {
 				sc = opened[len(opened)-1]
@@ -2005,7 +2005,7 @@ func realCase(e *lp.Exec, c cfg) {
 			_ = t.CloseWrite()
 		}
 		ok := false
-		for t0 := time.Now(); time.Since(t0) < 3*time.Second && !ok; time.Sleep(time.Millisecond) {
+		for i := 0; i < 3000 && !ok; i, _ = i+1, func() bool { time.Sleep(time.Millisecond); return true }() {
 			mu.Lock()
 			_, ok = closed[sc]
 			mu.Unlock()
